@@ -169,9 +169,13 @@ func (c mxCell) source(ctx int) string {
 	}
 	params, args := d.params, d.args
 	if params == "" {
-		params, args = "(a)", "(1)"
+		// one formal parameter more than arguments: the prologue variants that pad missing arguments are exercised
+		params, args = "(a, zz)", "(1)"
 	}
 	if !c.global {
+		// leave recognisable values in the stack region the owner's frame is going to use: a prologue that forgets to
+		// initialise a local shows them
+		b.WriteString("(function(p, q, r) { var s1 = 11, s2 = 22, s3 = 33, s4 = 44; return [s1, s2, s3, s4, p, q, r]; })(55, 66, 77);\n")
 		b.WriteString("(function" + params + " {\n")
 	} else {
 		b.WriteString("var a = 1;\n")
